@@ -13,6 +13,12 @@
 (*   "wire"    all lists over the value universe of each element type of   *)
 (*             length <= MaxLen: the wire form reads back equal, consumes  *)
 (*             exactly its bytes, fails when truncated                     *)
+(*   "alias"   the typed calls that hand something out or are handed       *)
+(*             something (ToArray, Filtering, AddAllArray) with the caller *)
+(*             retaining up to MaxHeld of those things, writing into them, *)
+(*             adding to retained lists, swapping roles with a retained    *)
+(*             list, interleaved with the list's own mutators: snapshots   *)
+(*             stay what they were, writes stay where they were made       *)
 (* `act` = <<operation, i, v, vs>> records the label of the last step so   *)
 (* that the clauses of the property can be checked as ACTION properties    *)
 (* formulated independently of the operators that define the actions, and  *)
@@ -20,7 +26,7 @@
 (***************************************************************************)
 EXTENDS TypedList, Json
 
-CONSTANTS Mode, Vals, MaxLen
+CONSTANTS Mode, Vals, MaxLen, MaxHeld
 
 VARIABLES act,   \* label of the last step
           aux    \* sort mode: the child list and the sort performed
@@ -42,7 +48,8 @@ WVals == [Int    |-> {<<0,0,0,0,0,0,0,0>>, <<255,255,255,255,255,255,255,255>>, 
 
 MCInit ==
   /\ act = <<"Init", 0, 0, <<>>>>
-  /\ CASE Mode = "typed"  -> InitWith("Abs") /\ aux = NoAux
+  /\ held = <<>>
+  /\ CASE Mode \in {"typed", "alias"} -> InitWith("Abs") /\ aux = NoAux
        [] Mode = "linked" -> InitWith("Linked") /\ aux = NoAux
        [] Mode = "sort"   -> /\ T = "Abs"
                              /\ xs \in SeqsUpTo(Vals, MaxLen)
@@ -80,6 +87,22 @@ LinkedNext ==
   \/ Clear /\ Lbl("Clear", 0, 0, <<>>)
   \/ \E o \in {"ToArray", "Size", "Walk"} : UNCHANGED vars /\ Lbl(o, 0, 0, <<>>)
 
+\* the calls that hand out / are handed something, the caller retaining it in slot k
+\* (label: i = the slot), and what the caller can do with a retained thing
+Slots == 1..MaxHeld
+InIdx == 0..(Len(xs) - 1)
+AliasNext ==
+  \/ \E v \in Vals : Len(xs) < MaxLen /\ Add(v) /\ NoKeep /\ Lbl("Add", 0, v, <<>>)
+  \/ \E i \in InIdx, v \in Vals : Set(i, v) /\ NoKeep /\ Lbl("Set", i, v, <<>>)
+  \/ \E vs \in SeqsUpTo(Vals, 2), k \in Slots : /\ Len(xs) + Len(vs) <= MaxLen
+                                                /\ AddAll(vs) /\ KeepAt(k, vs) /\ Lbl("AddAllArray", k, 0, vs)
+  \/ \E k \in Slots : UNCHANGED lvars /\ KeepAt(k, xs) /\ Lbl("ToArray", k, 0, <<>>)
+  \/ \E idx \in SeqsUpTo(InIdx, 2), k \in Slots :
+        UNCHANGED lvars /\ KeepAt(k, Filtering(idx)) /\ Lbl("Filter", k, 0, idx)
+  \/ \E h \in Slots : IsHeld(h) /\ \E i \in 0..(Len(held[h]) - 1), v \in Vals : HeldWrite(h, i, v) /\ Lbl("HeldSet", h, v, <<i>>)
+  \/ \E h \in Slots, v \in Vals : IsHeld(h) /\ Len(held[h]) < MaxLen /\ HeldAppend(h, v) /\ Lbl("HeldAdd", h, v, <<>>)
+  \/ \E h \in Slots : SwapHeld(h) /\ Lbl("Swap", h, 0, <<>>)
+
 \* all permutations of 0..n-1 as sequences (a constant table: evaluated once)
 PermTab == [n \in 0..MaxLen |-> {p \in [1..n -> 0..(n - 1)] : \A i, j \in 1..n : p[i] = p[j] => i = j}]
 Perms(n) == PermTab[n]
@@ -95,8 +118,9 @@ SortNext ==
         /\ Lbl("Sort", B2N(asc), B2N(casc), perm)
   /\ UNCHANGED vars
 
-MCNext == CASE Mode = "typed"  -> TypedNext /\ UNCHANGED aux
-            [] Mode = "linked" -> LinkedNext /\ UNCHANGED aux
+MCNext == CASE Mode = "typed"  -> TypedNext /\ NoKeep /\ UNCHANGED aux
+            [] Mode = "linked" -> LinkedNext /\ NoKeep /\ UNCHANGED aux
+            [] Mode = "alias"  -> AliasNext /\ UNCHANGED aux
             [] Mode = "sort"   -> SortNext
             [] Mode = "wire"   -> UNCHANGED vars /\ UNCHANGED aux /\ Lbl("Write", 0, 0, <<>>)
 
@@ -108,7 +132,7 @@ AI == act'[2]
 AV == act'[3]
 AS == act'[4]
 Mutators == {"Add", "AddAll", "AddAllArray", "AddAllSelf", "Set",
-             "AddFirst", "AddLast", "PutBefore", "Remove", "RemoveFirst", "RemoveLast", "Clear"}
+             "AddFirst", "AddLast", "PutBefore", "Remove", "RemoveFirst", "RemoveLast", "Clear", "Swap"}
 SamePrefix(s, t, n) == \A i \in 1..n : s[i] = t[i]
 
 FrameA == A \notin Mutators => xs' = xs
@@ -141,6 +165,36 @@ FilterLaws == /\ FilterRes([j \in 1..Len(xs) |-> j - 1]) = <<xs>>
               /\ FilterRes(<<0, Len(xs)>>) = <<>>
               /\ FilterRes(<<>>) = <<<<>>>>
               /\ \A i \in 0..(Len(xs) - 1) : FilterRes(<<i, i>>) = <<<<xs[i + 1], xs[i + 1]>>>>
+
+\* ---- retained results and arguments: no aliasing ---------------------------
+\* (formulated on the variables, not with KeepAt / HeldWrite / HeldAppend / SwapHeld)
+HeldOps == {"HeldSet", "HeldAdd"}
+Keepers == {"ToArray", "Filter", "AddAllArray"}
+OthersKeep(h) == /\ Len(held') >= Len(held)
+                 /\ \A g \in 1..Len(held) : g # h => held'[g] = held[g]
+\* writing into / adding to a retained thing changes that thing only
+WriteStaysA == A \in HeldOps =>
+                 /\ xs' = xs /\ Len(held') = Len(held) /\ OthersKeep(AI)
+                 /\ A = "HeldSet" => /\ Len(held'[AI]) = Len(held[AI])
+                                     /\ \A j \in 1..Len(held[AI]) :
+                                           held'[AI][j] = IF j = AS[1] + 1 THEN AV ELSE held[AI][j]
+                 /\ A = "HeldAdd" => held'[AI] = Append(held[AI], AV)
+WriteStays == [][WriteStaysA]_mcvars
+\* no call on the list changes a thing the caller retained earlier; what a call
+\* hands out is the list's contents (the selected elements) as of that call, what it
+\* is handed stays what was handed in
+SnapshotA == /\ A \in {"Add", "Set"} => held' = held
+             /\ A \in Keepers => /\ OthersKeep(AI)
+                                  /\ Len(held') = (IF AI > Len(held) THEN Len(held) + 1 ELSE Len(held))
+                                  /\ AI \in 1..Len(held')
+             /\ A = "ToArray" => held'[AI] = xs /\ xs' = xs
+             /\ A = "Filter" => /\ xs' = xs /\ Len(held'[AI]) = Len(AS)
+                                /\ \A j \in 1..Len(AS) : held'[AI][j] = xs[AS[j] + 1]
+             /\ A = "AddAllArray" => held'[AI] = AS
+Snapshot == [][SnapshotA]_mcvars
+SwapA == A = "Swap" => xs' = held[AI] /\ held'[AI] = xs /\ OthersKeep(AI) /\ Len(held') = Len(held)
+SwapP == [][SwapA]_mcvars
+HeldBounded == Len(held) <= MaxHeld /\ \A h \in 1..Len(held) : Len(held[h]) <= MaxLen
 
 \* ---- linked list ---------------------------------------------------------
 AddFirstA == A = "AddFirst" => xs'[1] = AV /\ Tail(xs') = xs
